@@ -137,87 +137,90 @@ class SATEncoder:
         flatten(expr)
         return terms, const
 
+    def _linearize(self, expr: Any) -> tuple[dict[str, tuple["IntVar", int]], int]:
+        """Flatten a linear expression into ({name: (variable, coefficient)}, constant)."""
+        from solvor.cp import IntVar
+
+        coefs: dict[str, tuple[IntVar, int]] = {}
+        const = 0
+
+        def walk(e: Any, k: int) -> None:
+            nonlocal const
+            if isinstance(e, IntVar):
+                coefs[e.name] = (e, coefs.get(e.name, (e, 0))[1] + k)
+            elif isinstance(e, int):
+                const += k * e
+            elif isinstance(e, tuple) and e[0] == "add":
+                walk(e[1], k)
+                walk(e[2], k)
+            elif isinstance(e, tuple) and e[0] == "sub":
+                walk(e[1], k)
+                walk(e[2], -k)
+            elif isinstance(e, tuple) and e[0] == "rsub":
+                walk(e[2], k)
+                walk(e[1], -k)
+            elif isinstance(e, tuple) and e[0] == "mul":
+                walk(e[1], k * e[2])
+            else:
+                raise ValueError(f"Unsupported expression: {e!r}")
+
+        walk(expr, 1)
+        return coefs, const
+
     def _encode_ne_expr(self, left: Any, right: Any, is_ne: bool) -> None:
         """Encode (left_expr != right_expr) or (left_expr == right_expr).
 
-        Handles linear expressions like (x + c1) != (y + c2).
+        Handles any linear expression built from +, -, * by a constant.
         """
-        from solvor.cp import IntVar
+        coefs, const = self._linearize(left)
+        right_coefs, right_const = self._linearize(right)
+        for name, (var, k) in right_coefs.items():
+            coefs[name] = (var, coefs.get(name, (var, 0))[1] - k)
+        terms = [(var, k) for var, k in coefs.values() if k != 0]
+        self._encode_linear(terms, const - right_const, is_ne)
 
-        # Handle subtraction: (x - y) ?= c => x ?= y + c
-        if isinstance(left, tuple) and left[0] == "sub":
-            x, y = left[1], left[2]
-            if isinstance(x, IntVar) and isinstance(y, IntVar):
-                right_const = right if isinstance(right, int) else 0
+    def _encode_linear(self, terms: list[tuple["IntVar", int]], const: int, is_ne: bool) -> None:
+        """Encode sum(coef * var) + const != 0 (is_ne) or == 0, all coefficients nonzero."""
+        # Fold the leading terms into auxiliary partial sums until at most two remain
+        while len(terms) > 2:
+            (x, a), (y, b) = terms[0], terms[1]
+            partial = self._create_int_var(
+                min(a * x.lb, a * x.ub) + min(b * y.lb, b * y.ub),
+                max(a * x.lb, a * x.ub) + max(b * y.lb, b * y.ub),
+            )
+            for v1 in range(x.lb, x.ub + 1):
+                for v2 in range(y.lb, y.ub + 1):
+                    self._clauses.append([-x.bool_vars[v1], -y.bool_vars[v2], partial.bool_vars[a * v1 + b * v2]])
+            terms = [(partial, 1)] + terms[2:]
+
+        if len(terms) == 0:
+            if (const == 0) == is_ne:
+                self._clauses.append([])
+
+        elif len(terms) == 1:
+            x, a = terms[0]
+            target, rem = divmod(-const, a)
+            if rem == 0:
                 if is_ne:
-                    for v1 in x.bool_vars:
-                        v2 = v1 - right_const
-                        if v2 in y.bool_vars:
+                    self._encode_ne_const(x, target)
+                else:
+                    self._encode_eq_const(x, target)
+            elif not is_ne:
+                self._clauses.append([])
+
+        else:
+            (x, a), (y, b) = terms
+            for v1 in range(x.lb, x.ub + 1):
+                if is_ne:
+                    for v2 in range(y.lb, y.ub + 1):
+                        if a * v1 + b * v2 + const == 0:
                             self._clauses.append([-x.bool_vars[v1], -y.bool_vars[v2]])
                 else:
-                    for v1 in x.bool_vars:
-                        v2 = v1 - right_const
-                        if v2 in y.bool_vars:
-                            self._clauses.append([-x.bool_vars[v1], y.bool_vars[v2]])
-                            self._clauses.append([x.bool_vars[v1], -y.bool_vars[v2]])
-                        else:
-                            self._clauses.append([-x.bool_vars[v1]])
-                return
-
-        left_terms, left_const = self._flatten_sum(left)
-        right_terms, right_const = self._flatten_sum(right)
-
-        # Handle case: single var + const on left, constant on right
-        if len(left_terms) == 1 and len(right_terms) == 0:
-            var = left_terms[0]
-            target = right_const - left_const
-            if is_ne:
-                self._encode_ne_const(var, target)
-            else:
-                self._encode_eq_const(var, target)
-            return
-
-        # Handle case: constant on left, single var + const on right
-        if len(left_terms) == 0 and len(right_terms) == 1:
-            var = right_terms[0]
-            target = left_const - right_const
-            if is_ne:
-                self._encode_ne_const(var, target)
-            else:
-                self._encode_eq_const(var, target)
-            return
-
-        # Handle case: two vars on left, constant on right
-        if len(left_terms) == 2 and len(right_terms) == 0:
-            target = right_const - left_const
-            if is_ne:
-                v1, v2 = left_terms
-                for val1 in v1.bool_vars:
-                    val2 = target - val1
-                    if val2 in v2.bool_vars:
-                        self._clauses.append([-v1.bool_vars[val1], -v2.bool_vars[val2]])
-            else:
-                self._encode_sum_eq(left_terms, target)
-            return
-
-        # Handle simple case: single var + const on each side
-        if len(left_terms) == 1 and len(right_terms) == 1:
-            var1, var2 = left_terms[0], right_terms[0]
-            offset = right_const - left_const
-
-            if is_ne:
-                for v1 in var1.bool_vars:
-                    v2 = v1 - offset
-                    if v2 in var2.bool_vars:
-                        self._clauses.append([-var1.bool_vars[v1], -var2.bool_vars[v2]])
-            else:
-                for v1 in var1.bool_vars:
-                    v2 = v1 - offset
-                    if v2 in var2.bool_vars:
-                        self._clauses.append([-var1.bool_vars[v1], var2.bool_vars[v2]])
-                        self._clauses.append([var1.bool_vars[v1], -var2.bool_vars[v2]])
+                    v2, rem = divmod(-(a * v1 + const), b)
+                    if rem == 0 and v2 in y.bool_vars:
+                        self._clauses.append([-x.bool_vars[v1], y.bool_vars[v2]])
                     else:
-                        self._clauses.append([-var1.bool_vars[v1]])
+                        self._clauses.append([-x.bool_vars[v1]])
 
     # Sum constraints
 
